@@ -171,6 +171,41 @@ def handle (j : Json) : Except String Json := do
     | .ok (.ok sd c) => pure (Json.mkObj [("sd", encSD sd), ("counter", encCounter c)])
     | .ok .exit1 => pure (Json.str "exit1")
     | .error e => pure (Json.mkObj [("perr", Json.str (match e with | .unsupported => "unsupported" | .malformed => "malformed" | .tooDeep => "tooDeep"))])
+  | "write_step" =>
+    let existing ← match j.getObjVal? "existing" with
+      | .ok Json.null => pure none
+      | .ok v => do pure (some (← decStr v))
+      | .error _ => pure none
+    let order := match j.getObjVal? "order" with | .ok (Json.bool b) => b | _ => false
+    let fl ← decFlavor j
+    let mode ← decStr (← j.getObjVal? "mode")
+    let es ← decEntries (← j.getObjVal? "e")
+    let c ← decCounter j
+    match writeStep evalInt fl ["R".toList, "t".toList] existing mode order es c with
+    | .ok (t, c) => pure (Json.mkObj [("text", str t), ("counter", encCounter c)])
+    | .error e => pure (Json.mkObj [("perr", Json.str (match e with | .unsupported => "unsupported" | .malformed => "malformed" | .tooDeep => "tooDeep"))])
+  | "effects" =>
+    let encEff (e : Effect) : Json := match e with
+      | .read p => Json.arr #[Json.str "read", encComps p]
+      | .mkdirs p => Json.arr #[Json.str "mkdirs", encComps p]
+      | .write p => Json.arr #[Json.str "write", encComps p]
+    let flag (k : String) : Bool := match j.getObjVal? k with | .ok (Json.bool b) => b | _ => false
+    let kind ← (← j.getObjVal? "kind").getStr?
+    match kind with
+    | "write" =>
+      pure (Json.arr ((writeEffects (← decComps (← j.getObjVal? "target")) (flag "exists") (← decStr (← j.getObjVal? "mode")) (flag "ok")).map encEff).toArray)
+    | "read" =>
+      let fsr ← (← (← j.getObjVal? "files").getArr?).toList.mapM decComps
+      pure (Json.arr ((readEffects fsr).map encEff).toArray)
+    | "parse" =>
+      let src ← decComps (← j.getObjVal? "source")
+      let inc ← (← (← j.getObjVal? "included").getArr?).toList.mapM decComps
+      pure (Json.arr ((parseEffects src inc (← decStr (← j.getObjVal? "name")) (flag "exists") (← decStr (← j.getObjVal? "mode")) (flag "ok")).map encEff).toArray)
+    | _ => throw "bad effects kind"
+  | "validate_scope" =>
+    match validateScope (some (← decStr (← j.getObjVal? "s"))) with
+    | some xs => pure (Json.arr (xs.map encScalar).toArray)
+    | none => pure (Json.str "none")
   | "evalint" =>
     match evalInt (← decStr (← j.getObjVal? "s")) with
     | .value v => pure (encVal v)
